@@ -41,10 +41,10 @@ pub fn run(ctx: &Ctx) -> Outcome {
     let core = lib::core();
     for (i, scn) in core.iter().enumerate() {
         let dev = match ctx.tier {
-            Tier::Quick => if i < 2 { 2 } else { 1 },
-            Tier::Thorough => if i < 3 { 3 } else { 2 },
+            Tier::Quick => 2,
+            Tier::Thorough => if i < 2 { 4 } else { 3 },
         };
-        duo_part(ctx, &mut out, scn, dev, ctx.tier.pick(6_000, 600_000));
+        duo_part(ctx, &mut out, scn, dev, ctx.tier.pick(60_000, 6_000_000));
     }
     // size-blackhole / EMSGSIZE path family (MTU probing active: link MTU > 576)
     let grid: Vec<(usize, Option<usize>, Option<usize>)> = match ctx.tier {
@@ -65,7 +65,7 @@ pub fn run(ctx: &Ctx) -> Outcome {
     };
     for (lm, bh, em) in grid {
         let scn = lib::mtu_transfer(lm, bh, em, 9000, false);
-        duo_part(ctx, &mut out, &scn, ctx.tier.pick(0, 1), ctx.tier.pick(400, 20_000));
+        duo_part(ctx, &mut out, &scn, ctx.tier.pick(1, 2), ctx.tier.pick(2_000, 200_000));
     }
     out.rule = "C01: fault plans enumerated by iterative deviation bounding over generated scenarios; distinct_nontrivial = executions with a distinct (timed) datagram+application trace".into();
     out.assumptions.push("payload is position-coded (period 251 with carry), so a wrong offset, duplicate or swap is visible in the data".into());
